@@ -19,7 +19,7 @@
 import CatVerif.Proofs.ParseBuf
 import CatVerif.Proofs.Mem
 import CatVerif.Proofs.Ctl
-import CatVerif.Proofs.Steps
+import CatVerif.Proofs.Steps.ParseArgs
 namespace Cat
 open St Spec
 
